@@ -747,3 +747,58 @@ Proof.
       * destruct (Hrec 0 ltac:(lia) ltac:(lia)) as [e [A B]]. exists e. auto.
   - destruct p as [|q]; [lia|]. destruct (Hrec k ltac:(lia) ltac:(lia)) as [e [A B]]. exists e. auto.
 Qed.
+
+(* ================= sentences of the whole split ================= *)
+Lemma get_eos_positive_all limit ck input : input <> [] -> 1 <= limit -> (0 <= get_eos limit ck input)%Z ->
+  exists k, 1 <= k /\ k <= length input /\ get_eos limit ck input = Z.of_nat (blen (firstn k input)) /\
+            ends_with_terminator (firstn k input) /\
+            (prohibited_not_open -> plevel 0 (firstn k input) = 0) /\
+            (forall lk, ck = Some lk -> forall j l, word_across lk input k j l -> in_lookback input k j -> False).
+Proof.
+  intros Hne Hl Hpos. destruct (get_eos_positive limit ck input Hne Hl Hpos) as [e [eos [l1 [l2 [A1 [A2 [A3 [A4 [A5 [A6 [A7 A8]]]]]]]]]]].
+  set (s := firstn limit input) in *.
+  assert (Hin : In e (candidates s)) by (rewrite A1; apply in_or_app; right; left; reflexivity).
+  destruct (candidates_bounds _ _ Hin) as [B1 B2].
+  destruct (accept_spec _ _ _ _ _ B2 A3) as [C1 [C2 [C3 [C4 [C5 [C6 C7]]]]]].
+  assert (Hk : eos <= length input) by (unfold s in A6; rewrite firstn_length in A6; lia).
+  exists eos. split; [lia|]. split; [assumption|]. split; [assumption|]. split; [|split].
+  - rewrite <- A8, C4. apply ends_with_terminator_extend.
+    + apply candidates_terminator. assumption.
+    + eapply Forall_impl; [|exact C5]. intros c. apply prohibited_trailer.
+  - intros PNO. rewrite <- A8, C4, plevel_app, C3. apply plevel_no_open.
+    eapply Forall_impl; [|exact C5]. intros c. apply PNO.
+  - intros lk -> j l Hw Hlb. eapply has_non_break_word_false; [apply (C7 lk eq_refl)|assumption|exact Hw|exact Hlb].
+Qed.
+
+(* every element that is followed by another one comes from a positive answer on what was left of the text *)
+Lemma steps_nonlast det : forall pre data rs x y post, steps det data rs -> rs = pre ++ x :: y :: post ->
+  exists before d rest, data = before ++ d /\ d <> [] /\ d = snd x ++ rest /\ (0 <= det d)%Z /\ det d = Z.of_nat (blen (snd x)).
+Proof.
+  induction pre as [|a pre IH]; intros data rs x y post H ->.
+  - cbn [app] in H. destruct x as [[b e] sl]. cbn [steps] in H. destruct H as [Hne [[_ [_ Hc]]|[Hp [Hd [rest [Hr _]]]]]]; [discriminate|].
+    exists [], data, rest. cbn [snd app]. auto.
+  - cbn [app] in H. destruct a as [[b e] sl]. cbn [steps] in H. destruct H as [Hne [[_ [_ Hc]]|[Hp [Hd [rest [Hr Hs]]]]]].
+    + destruct pre; discriminate.
+    + destruct (IH rest _ x y post Hs eq_refl) as [before [d [rest' [A [B [C [D E]]]]]]].
+      exists (sl ++ before), d, rest'. rewrite <- app_assoc. subst data. rewrite A. auto.
+Qed.
+
+Lemma split_sentence limit ck data rs pre x y post : 1 <= limit ->
+  split limit ck data = Done rs -> rs = pre ++ x :: y :: post ->
+  exists before d, data = before ++ d /\ snd x = firstn (length (snd x)) d /\ 1 <= length (snd x) /\
+    ends_with_terminator (snd x) /\
+    (prohibited_not_open -> plevel 0 (snd x) = 0) /\
+    (forall lk, ck = Some lk -> forall j l, word_across lk d (length (snd x)) j l -> in_lookback d (length (snd x)) j -> False).
+Proof.
+  intros Hl Hs Hrs. unfold split, split_with in Hs. apply iter_steps in Hs.
+  destruct (steps_nonlast _ _ _ _ _ _ _ Hs Hrs) as [before [d [rest [A [B [C [D E]]]]]]].
+  destruct (get_eos_positive_all limit ck d B Hl D) as [k [K1 [K2 [K3 [K4 [K5 K6]]]]]].
+  assert (Hsl : snd x = firstn k d).
+  { apply (prefix_blen_inj _ _ rest (skipn k d)); [rewrite firstn_skipn; symmetry; exact C|]. lia. }
+  assert (Hlen : length (snd x) = k) by (rewrite Hsl, firstn_length; lia).
+  exists before, d. rewrite Hlen. rewrite <- Hsl in K4, K5. auto 10.
+Qed.
+
+(* w = v, or w is not a prefix of v (used by the obligation on the BR_TAG alternatives) *)
+Definition list_eq_or_not_prefix (w v : text) : bool :=
+  if starts_with w v then (length w =? length v) else true.
